@@ -321,7 +321,8 @@ def rule_K3_R1(ctx):
     f = prog.fn("ConditionalSMCSampler._init_swarm")
     ex = extract(prog, f, opaque_self_methods=OPAQUE)
     sp = spec(prog, SPECS_SWARM["ConditionalSMCSampler._init_swarm"], f, opaque_self_methods=OPAQUE)
-    same(ctx, "R1", "ConditionalSMCSampler._init_swarm: iteration advanced by one", f, ex.store("iteration"), sp.store("iteration"), "self.iteration")
+    from ..formula import same_store
+    same_store(ctx, "R1", "ConditionalSMCSampler._init_swarm: iteration advanced by one", f, ex, sp, "iteration")
 
 
 def rule_R2(ctx):
@@ -346,6 +347,34 @@ def rule_R2(ctx):
             ok = False
             why = "log_q handed to create_particle is %s, not proposal.log_p(<the same tree>) of get_proposal_distribution(<data point>, <the same parent>)" % show(log_q)
     ctx.check(ok, "R2", "_get_constrained_path: log_q = get_proposal_distribution(dp, parent, …).log_p(tree) feeds create_particle(log_q, parent, tree)", f.where(), why, construct=f.qualname, stmt="create_particle(log_q, parent, tree)")
+    # the three edits, as a specification of the tree built for each data point
+    spp = spec(prog, """
+def s(self, tree):
+    path = [None]
+    labels = tree.labels
+    node_map = {}
+    new_tree = Tree(tree.grid_size)
+    parent_tree = None
+    for data_point in self.data_points:
+        new_tree = new_tree.copy()
+        old = labels[data_point.idx]
+        if old == tree.outlier_node_name:
+            new_tree.add_data_point_to_outliers(data_point)
+        elif old in node_map:
+            new_tree.add_data_point_to_node(data_point, node_map[old])
+        else:
+            new = new_tree.create_root_node([node_map[c] for c in tree.get_children(old)])
+            node_map[old] = new
+            new_tree.add_data_point_to_node(data_point, new)
+        parent = path[-1]
+        holder = TreeHolder(new_tree, self.kernel.tree_dist, self.kernel.perm_dist)
+        dist = self.kernel.get_proposal_distribution(data_point, parent, parent_tree)
+        path.append(self.kernel.create_particle(dist.log_p(holder), parent, holder))
+        parent_tree = new_tree
+    return path
+""", f, opaque_self_methods=OPAQUE, copy_is_identity=False)
+    exq = extract(prog, f, opaque_self_methods=OPAQUE, copy_is_identity=False)
+    same_events(ctx, "R2", "_get_constrained_path: the tree wrapped for each data point is the previous one plus exactly that point's edit (outlier / mapped clone / new clone over the mapped children)", f, exq.calls("new:TreeHolder"), spp.calls("new:TreeHolder"), "TreeHolder(new_tree, …) per data point")
     # sibling: Kernel.propose_particle
     g = prog.fn("Kernel.propose_particle")
     sp = spec(prog, """
@@ -460,6 +489,10 @@ def rule_L1(ctx):
         inc = [i for i, s in enumerate(body) if isinstance(s, ast.AugAssign) and u(s) == "self.iteration += 1"]
         ok = len(upd) == 1 and len(inc) == 1 and upd[0] < inc[0] and inc[0] == len(body) - 1
     ctx.check(ok, "L1", "AbstractSMCSampler.sample: one _update_swarm and one iteration += 1 per pass", f.where(), "the SMC loop does not consume exactly one data point per pass", construct=f.qualname, stmt="while self.iteration < self.num_iterations")
+    body = f.node.body
+    first = body[0] if body else None
+    ok = isinstance(first, ast.Expr) and u(first.value) == "self._init_swarm()" and sum(1 for c in calls(f.node, name="self._init_swarm")) == 1
+    ctx.check(ok, "L1", "AbstractSMCSampler.sample starts with exactly one _init_swarm()", f.where(), "the swarm is not initialised (once, first) before resampling / updating", construct=f.qualname, stmt="self._init_swarm()")
     rets = [n for n in ast.walk(f.node) if isinstance(n, ast.Return)]
     ctx.check(len(rets) == 1 and u(rets[0].value) == "self.swarm", "L1", "AbstractSMCSampler.sample returns self.swarm", f.where(), "sample() does not return the final swarm", construct=f.qualname, stmt="return self.swarm")
     pp = prog.fn("AbstractSMCSampler._propose_particle")
